@@ -318,22 +318,15 @@ def gen_real_cases(tier, r):
     return cases
 
 
-def run_real(case, td, shared=None):
-    """shared: a dump directory that already served other queries with the same path id (as with
-    --dump-smt-directory); a case that carries "same_dir_before" re-creates that history first"""
-    from pathlib import Path as P
+def real_prepare(case):
+    """the z3 side (not thread safe): the Path and its query -> (args, SMTQuery)"""
     from types import SimpleNamespace as NS
 
     import z3
-    import halmos.solve as S
     from halmos.sevm import Path, f_div, f_exp, f_mod, f_mul, f_sdiv, f_smod
     from halmos.solvers import SOLVERS
     from halmos.utils import create_solver
 
-    if shared is None and case.get("same_dir_before"):
-        shared = tempfile.mkdtemp(dir=td)
-        for prev in case["same_dir_before"]:
-            run_real(prev, td, shared)
     w = case.get("w", 256)
     x = z3.BitVec(f"p_x_uint{w}_00", w)
     y = z3.BitVec(f"p_y_uint{w}_01", w)
@@ -344,6 +337,25 @@ def run_real(case, td, shared=None):
         path.append(x == case["x0"])
     if case["pin"] in ("y", "both"):
         path.append(y == case["y0"])
+    cmd = [Z3] if case["solver"] == "z3" else [YICES] + list(SOLVERS["yices"].arguments)
+    args = NS(verbose=0, cache_solver=case["cache"], resolved_solver_command=cmd, solver_timeout_assertion=25)
+    return args, path.to_smt2(args)
+
+
+def run_real(case, td, shared=None, prepared=None):
+    """shared: a dump directory that already served other queries with the same path id (as with
+    --dump-smt-directory); a case that carries "same_dir_before" re-creates that history first.
+    prepared: real_prepare(case) made beforehand (this part only runs processes and regexes, so
+    groups of cases may run in threads)."""
+    from pathlib import Path as P
+
+    import halmos.solve as S
+
+    if shared is None and case.get("same_dir_before"):
+        shared = tempfile.mkdtemp(dir=td)
+        for prev in case["same_dir_before"]:
+            run_real(prev, td, shared)
+    args, query = prepared if prepared is not None else real_prepare(case)
     d = shared or tempfile.mkdtemp(dir=td)
     f1, f2 = P(d) / "1.smt2.out", P(d) / "1.refined.smt2.out"
 
@@ -351,10 +363,8 @@ def run_real(case, td, shared=None):
         return (pth.stat().st_mtime_ns, pth.read_text()) if pth.exists() else None
 
     b1, b2 = stamp(f1), stamp(f2)
-    cmd = [Z3] if case["solver"] == "z3" else [YICES] + list(SOLVERS["yices"].arguments)
-    args = NS(verbose=0, cache_solver=case["cache"], resolved_solver_command=cmd, solver_timeout_assertion=25)
     sctx = S.SolvingContext(dump_dir=P(d))
-    ctx = S.PathContext(args=args, path_id=1, solving_ctx=sctx, query=path.to_smt2(args))
+    ctx = S.PathContext(args=args, path_id=1, solving_ctx=sctx, query=query)
     out = S.solve_end_to_end(ctx)
     try:
         sctx.executor.shutdown(wait=True)
@@ -845,12 +855,23 @@ def run(rep, tier):
     # ---- X-e2e with the real solvers
     rcases = gen_real_cases(tier, r) if fam_on("real") else []
     calls, robs = [], []
-    group, rdir = [], None
+    # three consecutive cases share one dump directory and the path id (a used directory);
+    # the groups are independent of each other and run in threads (solver processes)
+    from concurrent.futures import ThreadPoolExecutor
+
+    prepared = [real_prepare(c) for c in rcases]
+
+    def run_group(g0):
+        rdir_ = tempfile.mkdtemp(dir=td)
+        return [run_real(rcases[i], td, shared=rdir_, prepared=prepared[i]) for i in range(g0, min(g0 + 3, len(rcases)))]
+
+    with ThreadPoolExecutor(4) as ex:
+        all_obs = [o for part in ex.map(run_group, range(0, len(rcases), 3)) for o in part]
+    group = []
     for idx, c in enumerate(rcases):
-        # three consecutive cases share one dump directory and the path id (a used directory)
         if idx % 3 == 0:
-            group, rdir = [], tempfile.mkdtemp(dir=td)
-        o = run_real(c, td, shared=rdir)
+            group = []
+        o = all_obs[idx]
         robs.append(o)
         if group:
             c = rcases[idx] = dict(c, same_dir_before=list(group))
